@@ -17,7 +17,6 @@ import enum as enumeration
 import logging
 import six
 import struct
-import sys
 import time
 
 from struct import pack, unpack
@@ -829,7 +828,7 @@ class TextString(Base):
         self.validate()
 
         if self.value is not None:
-            self.length = len(self.value)
+            self.length = len(self.value.encode('utf-8'))
             self.padding_length = self.PADDING_SIZE - (self.length %
                                                        self.PADDING_SIZE)
             if self.padding_length == self.PADDING_SIZE:
@@ -840,12 +839,10 @@ class TextString(Base):
 
     def read_value(self, istream, kmip_version=enums.KMIPVersion.KMIP_1_0):
         # Read string text
-        self.value = ''
+        data = b''
         for _ in range(self.length):
-            c = unpack(self.BYTE_FORMAT, istream.read(1))[0]
-            if sys.version >= '3':
-                c = c.decode()
-            self.value += c
+            data += unpack(self.BYTE_FORMAT, istream.read(1))[0]
+        self.value = data.decode('utf-8')
 
         # Read padding and check content
         self.padding_length = self.PADDING_SIZE - (self.length %
@@ -871,8 +868,9 @@ class TextString(Base):
 
     def write_value(self, ostream, kmip_version=enums.KMIPVersion.KMIP_1_0):
         # Write string to stream
-        for char in self.value:
-            ostream.write(pack(self.BYTE_FORMAT, char.encode()))
+        data = self.value.encode('utf-8')
+        for i in range(len(data)):
+            ostream.write(pack(self.BYTE_FORMAT, data[i:i + 1]))
 
         # Write padding to stream
         for _ in range(self.padding_length):
